@@ -29,8 +29,8 @@ LEVEL_TEXT = ('Lean theorems for every list of result containers (dicts, arbitra
 LEVEL_NOTE = ('trusted: Lean kernel + standard axioms; correspondence harness; json/gzip/zip codecs and the file system are '
               'the identity on data; pandas groupby/sum/concatenate semantics as modelled in Model/Analysis.lean; float '
               'columns are compared with the exact rational / exact algebraic relation by bracketing with relative '
-              'slack 1e-12 (float formatting), not bit for bit.  Known finding: a zero-trial entry pooled with non-empty '
-              'entries of the same input makes Analysis raise (modelled faithfully as ERR concat).')
+              'slack 1e-12 (float formatting), not bit for bit.  Zero-trial entries are pooled (concatenate_nonempty, '
+              'commit ad5e045); pools without any trial (0/0 rates) are modelled but not compared.')
 TECHNIQUE = ('Lean 4 proof (List.Perm / filter / countP algebra, Rat field arithmetic, Mathlib rpow derivative) + '
              'differential correspondence with the compiled model driver')
 TRUSTED = ['json/gzip/zipfile codecs, pathlib.rglob and the merge-results CLI file plumbing are the identity on the '
@@ -455,9 +455,12 @@ def gen_groups(rng, size):
 
 
 def entries_of(rng, groups, max_parts=5):
-    """random partition of every pooled trial list into non-empty entries, trials shuffled"""
+    """random partition of every pooled trial list into entries, trials shuffled; now and then a part with
+    zero trials (a run that saved before its first trial) is added"""
     entries = []
     for g in groups:
+        for _ in range(int(rng.choice([0, 0, 0, 1, 2]))):
+            entries.append({'inp': g['inp'], 'rate': g['rate'], 'wall': dyadic(rng), 'ee': [], 'su': '', 'cs': ''})
         ts = list(g['trials'])
         perm = rng.permutation(len(ts))
         ts = [ts[int(i)] for i in perm]
@@ -511,9 +514,10 @@ def gen_malformed(rng, kind):
     return layout(rng, spec, len(entries), ['json', 'gz'])
 
 
-# Only the known finding (a zero-trial entry pooled with non-empty ones) is compared.  Pools with zero trials in
-# total (0/0 rates) and entries whose columns have different lengths / widths are modelled (Model/Analysis.lean)
-# but not compared: what numpy does with them is incidental to the property, a refactoring may change it.
+# Zero-trial entries pooled with non-empty ones (the defect fixed by ad5e045) are compared here and, with random
+# layouts, in the main stream.  Pools with zero trials in total (0/0 rates) and entries whose columns have
+# different lengths / widths are modelled (Model/Analysis.lean) but not compared: what numpy does with them is
+# incidental to the property, a refactoring may change it.
 MALFORMED = ['empty-mixed']
 
 
